@@ -123,10 +123,13 @@ def observe_valid(n):
         return False
 
 
-def record_prune(root, strict, desc):
+def record_prune(root, strict, desc, at=None):
+    """prune(at) - by default the whole tree; `at` may be a node inside the tree (a model is pruned in place below one of
+    its elements) or a root whose parent pointer still names the element it was detached from"""
     from metapype.eml import validate
     w = World(clear=False)
     w.track_tree(root)
+    whole, root = root, (at if at is not None else root)
     pre = w.pi(ALLF)
     raised = ""
     ret = []
@@ -150,7 +153,7 @@ def record_prune(root, strict, desc):
     except Exception as e:  # noqa: BLE001
         second_ret = -1
     second_post = w.pi(ALLF)
-    return {"op": "prune", "pre": pre, "post": post, "root": 1, "strict": bool(strict), "raised": raised, "ret": ret,
+    return {"op": "prune", "pre": pre, "post": post, "root": w.ident(root), "strict": bool(strict), "raised": raised, "ret": ret,
             "postValid": post_valid, "removedValid": removed_valid, "secondRet": second_ret, "second": second_post, "desc": desc}
 
 
@@ -166,7 +169,47 @@ def w_plans(idx):
         for (site, kind) in sorted(map(tuple, p["plant"])):
             plant(sites[(site - 1) % len(sites)], kind, rnd, t)
         evs.append(record_prune(root, p["strict"], {"plan": p}))
+        evs += in_place_variants(lambda: rebuild_plan(p, i, t), p["strict"], {"plan": p}, i)
     return evs
+
+
+def rebuild_plan(p, i, t):
+    Node.store.clear()
+    rnd = random.Random(i)
+    root = skeleton(p["skeleton"])
+    sites = list(walk(root))
+    for (site, kind) in sorted(map(tuple, p["plant"])):
+        plant(sites[(site - 1) % len(sites)], kind, rnd, t)
+    return root
+
+
+def in_place_variants(rebuild, strict, desc, i):
+    """The same tree pruned below one of its elements, in place (the element keeps its parent and siblings), and pruned
+    after being detached with remove_child (the parent pointer still names the old parent)."""
+    t = G["t"]
+    evs = []
+    root = rebuild()
+    inner = [n for n in walk(root) if n is not root and n.name in t.node_map and n.children
+             and not any(a.name == "metadata" for a in ancestors(n))]
+    if inner:
+        at = inner[i % len(inner)]
+        evs.append(record_prune(root, strict, dict(desc, variant="in place below " + at.name), at=at))
+    if i % 2 == 0:
+        root = rebuild()
+        kids = [c for c in root.children if c.name in t.node_map and c.children]
+        if kids:
+            c = kids[i % len(kids)]
+            root.remove_child(c)
+            evs.append(record_prune(c, strict, dict(desc, variant="detached " + c.name + " (parent pointer kept by remove_child)")))
+    return evs
+
+
+def ancestors(n):
+    seen = 0
+    while n.parent is not None and seen < 10000:
+        n = n.parent
+        seen += 1
+        yield n
 
 
 PLANT_OPS = ["add-unknown-child", "add-misplaced-child", "rename-unknown", "rename-misplaced", "corrupt-content-class", "corrupt-attr", "add-attr",
